@@ -9,7 +9,7 @@
 From XcpModel Require Import Base Backup Paths Walker.
 From XcpProofs Require Import WalkerProofs.
 From XcpModel Require Import Extracted.
-From XcpProofs Require Import ExtractedOk.
+From XcpProofs Require Import XWalker XConfig.
 From XcpProofs Require Import PinnedSource.
 From XcpPins Require Import Pin_parfile_copy_worker Pin_parblock_dispatch_worker.
 
@@ -91,3 +91,37 @@ Print Assumptions C02_sizes_sum.
 Print Assumptions C02_src_walker_dispatch.
 Print Assumptions C02_src_pin_parfile_copy_worker.
 Print Assumptions C02_src_pin_parblock_dispatch_worker.
+
+(* ---- further glue on this property's path, pinned token for token (an edit re-opens the obligation; the run then
+   looks for a failing input) ---- *)
+From XcpPins Require Import Pin_main_expand_sources Pin_main_expand_globs Pin_mod_load_driver Pin_parfile_new Pin_parblock_new Pin_main_main.
+Theorem C02_src_pin_main_expand_sources : pin_unchanged name_main_expand_sources.
+Proof. exact pin_main_expand_sources. Qed.
+Theorem C02_src_pin_main_expand_globs : pin_unchanged name_main_expand_globs.
+Proof. exact pin_main_expand_globs. Qed.
+Theorem C02_src_pin_mod_load_driver : pin_unchanged name_mod_load_driver.
+Proof. exact pin_mod_load_driver. Qed.
+Theorem C02_src_pin_parfile_new : pin_unchanged name_parfile_new.
+Proof. exact pin_parfile_new. Qed.
+Theorem C02_src_pin_parblock_new : pin_unchanged name_parblock_new.
+Proof. exact pin_parblock_new. Qed.
+Theorem C02_src_pin_main_main : pin_unchanged name_main_main.
+Proof. exact pin_main_main. Qed.
+(* the worker count both drivers start with is >= 1 whatever -w says (0 = one per CPU; a machine has >= 1): the
+   hypothesis `1 <= W` of the driver theorems, from the two translated definitions *)
+Theorem C02_src_workers_at_least_one : forall w ncpus, (1 <= ncpus)%N -> (1 <= x_num_workers (x_config_workers w ncpus) ncpus)%N.
+Proof. exact x_workers_at_least_one. Qed.
+From Coq Require Import String.
+(* Config::from(&Opts) is one struct literal with no `..default` tail, and every option other than the worker count
+   and the block size reaches the library unchanged under its own name *)
+Theorem C02_src_options_reach_config : forall f e, List.In (f, e) x_config_fields ->
+  f <> "workers"%string -> f <> "block_size"%string -> e = ("opts." ++ f)%string.
+Proof. exact x_config_fields_plain. Qed.
+Print Assumptions C02_src_workers_at_least_one.
+Print Assumptions C02_src_options_reach_config.
+Print Assumptions C02_src_pin_main_expand_sources.
+Print Assumptions C02_src_pin_main_expand_globs.
+Print Assumptions C02_src_pin_mod_load_driver.
+Print Assumptions C02_src_pin_parfile_new.
+Print Assumptions C02_src_pin_parblock_new.
+Print Assumptions C02_src_pin_main_main.
